@@ -375,3 +375,20 @@ def run(ck):
               "the literal matchers compare only bytes that are there: match_raw / match_string test remaining() < len before memcmp / "
               "strncmp (all typed-header and media-type parsers go through them)",
               key_pred=lambda k: k.startswith("match_raw") or k.startswith("match_string"), min_instances=4)
+
+    # ---------------- R13: a header class that overrides neither parse nor parseRaw recurses until the stack is gone ----------------
+    ck.rule("C03-R13", "exhaustiveness over the class hierarchy + must-call on the resolved virtual implementations",
+            "Header::parse and Header::parseRaw are defaults that call each other; in every class derived from Header virtual dispatch "
+            "resolves at least one of them to an override that does not unconditionally call the other — otherwise parsing that header "
+            "line (any value, any segmentation) never returns and the process dies of stack exhaustion", 10)
+    cyc, ncls = lib.virtual_default_cycles(prog, "Pistache::Http::Header::Header")
+    bad = {c: (ms, site) for c, ms, site in cyc}
+    for sub in sorted(prog.subclasses("Pistache::Http::Header::Header")):
+        if not any((x.get("file") or "").startswith(facts.REPO + "/include/") or (x.get("file") or "").startswith(facts.REPO + "/src/")
+                   for x in prog.classes_named(strip_tmpl(sub))):
+            continue
+        b_ = bad.get(sub)
+        ck.ob("C03-R13", "header:%s" % sub.replace("Pistache::Http::Header::", ""), b_ is None, (b_[1] if b_ else ""), sub,
+              "parse / parseRaw resolve to an override" if b_ is None else
+              "for %s the virtual methods %s resolve to implementations that call each other unconditionally: parsing this header never returns" % (sub, " <-> ".join(b_[0])),
+              structural=True)
